@@ -3,6 +3,7 @@
 # Like try_seeded.sh but never touches /repo: the patch is applied to a scratch copy of /repo/src under /dev/shm and
 # the check is pointed at it (VERIF_POREPY_SRC), so background runs against /repo are not disturbed.
 # 1) demo on the clean copy must exit 0, on the patched copy exit 1; 2) the property's check runs against the patched copy.
+HERE="$(cd "$(dirname "$0")/.." && pwd)"
 P=$1; D=$(realpath $2); shift 2
 S=$(mktemp -d /dev/shm/pverif-seed-XXXX)
 cp -rp /repo/src $S/src
@@ -10,7 +11,7 @@ cp -rp /repo/src $S/src
 ( cd $S && patch -p1 -s --no-backup-if-mismatch < $D/patch.diff ) || { echo "PATCH-DOES-NOT-APPLY"; rm -rf $S; exit 9; }
 ( cd $S && PYTHONPATH=$S/src timeout 900 /venv/bin/python $D/demo.py > $S/demo_patched.log 2>&1 ); rc_patched=$?
 echo "demo clean rc=$rc_clean patched rc=$rc_patched ($(grep -v '^$' $S/demo_patched.log | tail -1 | cut -c1-200))"
-cd /verif && VERIF_POREPY_SRC=$S/src ./check $P --no-evidence "$@" > $S/check.log 2>&1; rc=$?
+cd $HERE && VERIF_POREPY_SRC=$S/src ./check $P --no-evidence "$@" > $S/check.log 2>&1; rc=$?
 echo "check $P rc=$rc"
 grep "^violation\|^VIOLATION\|^HARNESS\|^\[" $S/check.log | cut -c1-400 | head -8
-rm -rf $S /verif/replays/$P
+rm -rf $S $HERE/replays/$P
